@@ -348,7 +348,8 @@ class Check(core.PropertyCheck):
         "stop_several_pending", "stop_with_completed", "rotate", "rotate_while_pending", "start_append",
         "start_overwrite", "second_session", "filter_change", "filter_change_while_pending", "completion_after_stop_write",
         "refused_option_change", "refused_option_change_while_saving",
-        "filter_change_after_records_overwrite", "filter_change_after_records_append")
+        "filter_change_after_records_overwrite", "filter_change_after_records_append",
+        "stop_with_unwritten_completion_now_matching")
     REQUIRED_ACTIONS = ("SetFile", "SetFilter", "Unset", "Done", "StartHook")  # per-type hooks: see the witnesses
     ASSUMPTIONS = (
         "records on disk are read with the harness's own tnetstring reader and identified by their 'id' entry; `new` "
@@ -406,7 +407,26 @@ class Check(core.PropertyCheck):
             behs = m.graph.edge_cover(rng, max_len=24, tail=5)
             cap = 900 if ctx.quick else 6000  # a seeded sample of the edge cover when it is larger than that
             if len(behs) > cap:
-                behs = rng.sample(behs, cap)
+                # histories of the shape "... completion ... filter change ... stop" are rare in the cover but are the
+                # only ones in which a stale entry of a completed flow can show: keep (up to cap/3 of) them all
+                def shaped(b):
+                    names = [n for n, _a, _s in b[1:]]
+                    if not names or names[-1] not in ("Unset", "Done"):
+                        return False
+                    seen_completion = False
+                    for n in names:
+                        if n in ("RespHook", "ErrHook", "WsEndHook", "EndHook", "FailHook"):
+                            seen_completion = True
+                        elif n == "SetFilter" and seen_completion:
+                            return True
+                    return False
+
+                keep = [b for b in behs if shaped(b)]
+                if len(keep) > cap // 3:
+                    keep = rng.sample(keep, cap // 3)
+                ids = {id(b) for b in keep}
+                rest = [b for b in behs if id(b) not in ids]
+                behs = keep + rng.sample(rest, cap - len(keep))
             behs += m.graph.random_walks(rng, 200 if ctx.quick else 1500, 20)
             for b in behs:
                 if len(b) < 2:
